@@ -484,6 +484,46 @@ func c10RenumberedOffers() [][]vScanOfferCodec {
 	return out
 }
 
+// c10FoldedOffers: remote video lists in which one codec appears under two payload types (both fold onto the
+// one local registration), with an RTX for both / the first / the second / none, interleaved or grouped.
+func c10FoldedOffers() [][]vScanOfferCodec {
+	const h264Fmtp = "level-asymmetry-allowed=1;packetization-mode=1;profile-level-id=42001f"
+	var out [][]vScanOfferCodec
+	for _, name := range []string{"VP8", "H264"} {
+		for _, pts := range [][2]int{{96, 98}, {100, 120}} {
+			for mask := 0; mask < 4; mask++ {
+				prim := func(pt int) vScanOfferCodec {
+					c := vScanOfferCodec{PT: pt, Name: name, Clock: 90000, FB: []string{"nack"}}
+					if name == "H264" {
+						c.Fmtp = h264Fmtp
+					}
+
+					return c
+				}
+				rtx := func(pt int) vScanOfferCodec {
+					return vScanOfferCodec{PT: pt + 1, Name: "rtx", Clock: 90000, Fmtp: fmt.Sprintf("apt=%d", pt)}
+				}
+				var inter, grouped, tail []vScanOfferCodec
+				for k, pt := range pts {
+					inter = append(inter, prim(pt))
+					grouped = append(grouped, prim(pt))
+					if mask&(1<<k) != 0 {
+						inter = append(inter, rtx(pt))
+						tail = append(tail, rtx(pt))
+					}
+				}
+				grouped = append(grouped, tail...)
+				out = append(out, inter)
+				if mask != 0 {
+					out = append(out, grouped)
+				}
+			}
+		}
+	}
+
+	return out
+}
+
 // c10Arrangements returns every non-empty ordered arrangement of distinct elements of set.
 func c10Arrangements(set []int) [][]int {
 	var out [][]int
@@ -648,6 +688,16 @@ func TestVerifC10(t *testing.T) {
 			}
 		}
 	}
+	// ---- answer mode, no preferences: the renumbered offers again, and offers that list one codec twice
+	// (two payload types that fold onto one local registration), each with / without its own RTX ----
+	nFold := 0
+	for _, offer := range append(append([][]vScanOfferCodec{}, renumOffers...), c10FoldedOffers()...) {
+		for _, dir := range []string{"", "sendrecv"} {
+			cases = append(cases, c10Case{Mode: "answer", Codecs: renumRegs, Exts: []int{0, 1}, Prefs: "none", Dir: dir, RemoteCodecs: offer, RemoteExt: 1})
+			nFold++
+		}
+	}
+	c.Set("folded_and_renumbered_offer_cases_without_preferences", nFold)
 	c.Set("renumbering_cases", nRenum)
 	c.Set("renumbering_pref_lists", len(renumPrefs))
 	c.Set("renumbering_remote_offers", len(renumOffers))
